@@ -14,6 +14,12 @@ func vhC05Contains(objs []Object, uuid string) *vObj {
 	return nil
 }
 
+// the object(s) an interrupted call touches: old and new content
+type vhTouched struct {
+	uuid     string
+	old, new *vObj // nil = absent
+}
+
 func VH_C05_crash() {
 	cfg := vhCfgs[[]int{0, 2}[vChoice("cfg", vBound("CFG", 2))]]
 	db, root := vhOpenDB(cfg)
@@ -26,12 +32,7 @@ func VH_C05_crash() {
 	}
 	op := vChoice("op", 5)
 	crashAt := vLen("crashat", 0, vBound("K", 7))
-	// the object(s) the interrupted call touches: old and new content
-	type touched struct {
-		uuid     string
-		old, new *vObj // nil = absent
-	}
-	var tch []touched
+	var tch []vhTouched
 	n1 := &vObj{A: vInt64("newA"), S: "s", U: 77}
 	n2 := &vObj{A: vInt64("newA2"), S: "s", U: 78}
 	crashed := vCrashRun(func() {
@@ -39,28 +40,28 @@ func VH_C05_crash() {
 		switch op {
 		case 0: // insert
 			n1.Initialize("11111111-1111-4111-8111-111111111111")
-			tch = append(tch, touched{n1.UUID(), nil, n1})
+			tch = append(tch, vhTouched{n1.UUID(), nil, n1})
 			db.InsertOrUpdate(n1)
 		case 1: // update
 			n1.Initialize(rows[0].uuid)
 			old := rows[0].o
-			tch = append(tch, touched{n1.UUID(), &old, n1})
+			tch = append(tch, vhTouched{n1.UUID(), &old, n1})
 			db.InsertOrUpdate(n1)
 		case 2: // delete
 			old := rows[0].o
-			tch = append(tch, touched{rows[0].uuid, &old, nil})
+			tch = append(tch, vhTouched{rows[0].uuid, &old, nil})
 			d := &vObj{}
 			d.Initialize(rows[0].uuid)
 			db.Delete(d)
 		case 3: // batch of two
 			n1.Initialize("11111111-1111-4111-8111-111111111111")
 			n2.Initialize("22222222-2222-4222-8222-222222222222")
-			tch = append(tch, touched{n1.UUID(), nil, n1}, touched{n2.UUID(), nil, n2})
+			tch = append(tch, vhTouched{n1.UUID(), nil, n1}, vhTouched{n2.UUID(), nil, n2})
 			db.InsertOrUpdateMany(n1, n2)
 		case 4: // delete through a search (everything)
 			for i := range rows {
 				old := rows[i].o
-				tch = append(tch, touched{rows[i].uuid, &old, nil})
+				tch = append(tch, vhTouched{rows[i].uuid, &old, nil})
 			}
 			db.Search(&vObj{}, "S", "=", "s").Delete()
 		}
@@ -68,6 +69,12 @@ func VH_C05_crash() {
 	if !crashed {
 		return // the call completed in fewer steps: covered by C01
 	}
+	vhC05Post(root, rows, tch, true)
+}
+
+// vhC05Post: what a new process must observe on a directory left by a crash.
+// acked: rows not touched by the interrupted call must be present (sync mode).
+func vhC05Post(root string, rows []vhRow, tch []vhTouched, acked bool) {
 	// ---- a new process opens the directory ----
 	db2 := Open(root)
 	_, serr := db2.Schema(&vObj{})
@@ -96,6 +103,9 @@ func VH_C05_crash() {
 			continue
 		}
 		g := vhC05Contains(objs, rows[i].uuid)
+		if !acked && g == nil {
+			continue
+		}
 		vAssert("C05.acknowledged_present", g != nil)
 		if g != nil {
 			vAssert("C05.acknowledged_fields", vhFieldsEq(g, &rows[i].o))
@@ -138,4 +148,114 @@ func VH_C05_crash() {
 		}
 		vAssert("C05.index.agrees_with_file", found)
 	}
+	// the recovered database keeps working: one more write, a clean restart
+	nw := &vObj{A: 12345, S: "s", U: 99}
+	vAssert("C05.after.write", db2.InsertOrUpdate(nw) == nil)
+	vAssert("C05.after.close", db2.Close() == nil)
+	db3 := Open(root)
+	_, e3 := db3.Schema(&vObj{})
+	vAssert("C05.after.reopen_clean", e3 == nil)
+	n3, _ := db3.Count(&vObj{})
+	vAssert("C05.after.count", n3 == len(objs)+1)
+}
+
+// VH_C05_more: crash windows outside the single-call write path — DeleteAll,
+// chunked bulk insertion (one commit per chunk), an explicit Commit, the
+// flush of pending asynchronous writes, Close — and a second crash inside the
+// Repair+Commit that follows a first one.
+func VH_C05_more() {
+	op := vChoice("op", 6)
+	cfg := vhCfgs[0]
+	if op == 3 || op == 4 {
+		cfg = vhCfgs[3] // async
+	}
+	db, root := vhOpenDB(cfg)
+	var rows []vhRow
+	pre := vLen("pre", 1, vBound("PRE", 2))
+	for k := 0; k < pre; k++ {
+		o := vhNewObj()
+		vAssert("C05.pre.insert", db.InsertOrUpdate(o) == nil)
+		rows = append(rows, vhRow{o.UUID(), *o})
+	}
+	if cfg.async {
+		vAssert("C05.pre.flush", db.FlushAllAndCommit(&vObj{}) == nil)
+	}
+	crashAt := vLen("crashat", 0, vBound("K", 7))
+	var tch []vhTouched
+	n1 := &vObj{A: vInt64("newA"), S: "s", U: 77}
+	n2 := &vObj{A: vInt64("newA2"), S: "s", U: 78}
+	n1.Initialize("11111111-1111-4111-8111-111111111111")
+	n2.Initialize("22222222-2222-4222-8222-222222222222")
+	acked := true
+	crashed := vCrashRun(func() {
+		switch op {
+		case 0: // DeleteAll
+			for i := range rows {
+				old := rows[i].o
+				tch = append(tch, vhTouched{rows[i].uuid, &old, nil})
+			}
+			vFsCrashAfter(crashAt)
+			db.DeleteAll(&vObj{})
+		case 1: // bulk, one object per chunk: the first chunk is acknowledged by its commit
+			tch = append(tch, vhTouched{n1.UUID(), nil, n1}, vhTouched{n2.UUID(), nil, n2})
+			ch := make(chan Object, 2)
+			ch <- n1
+			ch <- n2
+			close(ch)
+			vFsCrashAfter(crashAt)
+			db.InsertOrUpdateBulk(ch, 1)
+		case 2: // update, then an explicit Commit is cut
+			n1.Initialize(rows[0].uuid)
+			vAssert("C05.more.update", db.InsertOrUpdate(n1) == nil)
+			rows[0].o = *n1
+			vFsCrashAfter(crashAt)
+			db.Commit(&vObj{})
+		case 3: // async: accepted writes pending, the flush is cut
+			acked = false
+			tch = append(tch, vhTouched{n1.UUID(), nil, n1}, vhTouched{n2.UUID(), nil, n2})
+			vAssert("C05.more.async.insert", db.InsertOrUpdate(n1) == nil && db.InsertOrUpdate(n2) == nil)
+			vFsCrashAfter(crashAt)
+			db.FlushAllAndCommit(&vObj{})
+		case 4: // async: update and delete pending, Close is cut
+			acked = false
+			n1.Initialize(rows[0].uuid)
+			old := rows[0].o
+			tch = append(tch, vhTouched{n1.UUID(), &old, n1})
+			vAssert("C05.more.async.update", db.InsertOrUpdate(n1) == nil)
+			if pre > 1 {
+				old1 := rows[1].o
+				tch = append(tch, vhTouched{rows[1].uuid, &old1, nil})
+				d := &vObj{}
+				d.Initialize(rows[1].uuid)
+				vAssert("C05.more.async.delete", db.Delete(d) == nil)
+			}
+			vFsCrashAfter(crashAt)
+			db.Close()
+		case 5: // first crash inside an insert, second crash inside Repair+Commit
+			tch = append(tch, vhTouched{n1.UUID(), nil, n1})
+			vFsCrashAfter(vChoice("_first", 4))
+			db.InsertOrUpdate(n1)
+		}
+	})
+	if !crashed {
+		return
+	}
+	if op == 5 {
+		second := vCrashRun(func() {
+			dbr := Open(root)
+			_, serr := dbr.Schema(&vObj{})
+			if serr != nil && !IsIndexCorrupted(serr) {
+				return
+			}
+			if IsIndexCorrupted(serr) {
+				dbr.Repair(&vObj{})
+			}
+			vFsCrashAfter(crashAt)
+			dbr.Commit(&vObj{})
+		})
+		if !second {
+			return
+		}
+	}
+	vhC05Post(root, rows, tch, acked)
 }
